@@ -287,3 +287,97 @@ Example C01_R5_unset_global_is_VarNotFound_repaired :
   | _ => None
   end = Some (KErr EVarNotFound, [(s "g", TrInt 1)], []).
 Proof. vm_compute. reflexivity. Qed.
+
+(* ==== the simulation theorem, proved for a fragment ====
+   `compile_correct` (top of this file) is proved for the programs of fragment F1
+   (C01SimDefs.in_f1): one module without submodules and imports whose only function is `main`,
+   without parameters; every card of main is  SetGlobalVar g e  (g non-empty)  or a Comment, and e is
+   built from ScalarInt (in i64), ScalarNil, ReadVar of a global (non-empty name without '.'),
+   Add Sub Mul Less LessOrEq Equals NotEquals And Or Xor and Not.  Reading a global that was never
+   assigned is inside the fragment (both sides: the error VarNotFound, the globals assigned so far).
+   Outside: Div and ScalarFloat (reals: the VM model is generic in the float instance, RefSem uses
+   SpecFloat), every other card kind, locals, control flow, calls (fragments F2, F3: not proved).
+
+   Hypotheses, all decidable: the program is in F1; no two global names of the program share their
+   32-bit handle (the VM and the compiled program know a global by the FNV handle of its name, the
+   language by its name: with a collision the two sides differ - handles_inj); every expression
+   fits the value stack (depth_ok: nesting depth + 1 < 256, otherwise the VM reports Stackoverflow:
+   the resource side of compile_correct); the compiler returned a program B with fewer than 2^32
+   variable ids (next_var is a wrapping u32); the budget covers one dispatch per instruction of
+   main, Exit included, plus the one the loop keeps in reserve (needed_f1).
+   Conclusion: same outcome kind, and the host reads the same globals by name - for every name
+   that does not collide with a name of the program (no_collision), assigned or not. *)
+From Cao Require C01SimDefs C01SimF1 Compiler CompilerProofs Vm C15Link.
+
+Theorem C01_compile_correct_f1 :
+  forall (F : Vm.fops) (bld : Vm.build) (M : module) (B : Compiler.compiled) (fuel : nat) (host : list str)
+         (o : obs) (budget : nat),
+    C01SimDefs.in_f1 M = true ->
+    C01SimDefs.handles_inj (C01SimDefs.main_names (C01SimDefs.main_cards M)) = true ->
+    C01SimDefs.depth_ok (C01SimDefs.main_cards M) = true ->
+    Compiler.compile M CompilerProofs.default_options = Compiler.COk B ->
+    (N.of_nat (List.length (Compiler.p_ids B)) < Bits.two32)%N ->
+    eval_program fuel M host = PObs o ->
+    C01SimDefs.needed_f1 M <= budget ->
+    let r := Vm.run F bld budget (C15Link.to_vm B) Vm.fresh_state in
+    C01SimDefs.vm_kind (fst r) = Some (ob_kind o) /\
+    forall n, C01SimDefs.no_collision (C01SimDefs.main_names (C01SimDefs.main_cards M)) n ->
+      option_map C01SimDefs.vm_tree (Vm.read_var_by_name (C15Link.to_vm B) (snd r) n) = assoc n (ob_globals o).
+Proof. exact C01SimF1.compile_correct_f1. Qed.
+Print Assumptions C01_compile_correct_f1.
+
+(* an instance: every hypothesis holds of this program, and both sides, computed independently
+   (the compiler model, then the VM model on its output; the reference semantics), give what the
+   theorem says - here the run ends in VarNotFound after three assignments *)
+Definition f1_example : module :=
+  prog [("main", fn [] [CSetGlobalVar (s "a") (CBin BAdd (CScalarInt 2) (CScalarInt 3));
+                        CComment (s "a comment");
+                        CSetGlobalVar (s "b") (CBin BMul (CReadVar (s "a"))
+                                                 (CBin BLess (CReadVar (s "a")) (CScalarInt 10)));
+                        CSetGlobalVar (s "c") (CUn UNot CScalarNil);
+                        CSetGlobalVar (s "d") (CBin BSub (CScalarInt 1) (CReadVar (s "nope")));
+                        CSetGlobalVar (s "e") (CScalarInt 1)])].
+Definition no_floats : Vm.fops :=
+  Vm.mkFops (fun _ _ => 0%N) (fun _ _ => 0%N) (fun _ _ => 0%N) (fun _ _ => 0%N) (fun _ _ => None)
+            (fun _ => 0%N) (fun _ => 0%Z).
+Example C01_compile_correct_f1_instance :
+  match Compiler.compile f1_example CompilerProofs.default_options, eval_program 200 f1_example [] with
+  | Compiler.COk B, PObs o =>
+      C01SimDefs.in_f1 f1_example = true /\
+      C01SimDefs.handles_inj (C01SimDefs.main_names (C01SimDefs.main_cards f1_example)) = true /\
+      C01SimDefs.depth_ok (C01SimDefs.main_cards f1_example) = true /\
+      (N.of_nat (List.length (Compiler.p_ids B)) <? Bits.two32)%N = true /\
+      C01SimDefs.needed_f1 f1_example = 21 /\
+      (ob_kind o, ob_globals o) = (KErr EVarNotFound, [(s "a", TrInt 5); (s "b", TrInt 5); (s "c", TrInt 1)]) /\
+      let r := Vm.run no_floats Vm.Debug 21 (C15Link.to_vm B) Vm.fresh_state in
+      C01SimDefs.vm_kind (fst r) = Some (ob_kind o) /\
+      map (fun n => option_map C01SimDefs.vm_tree (Vm.read_var_by_name (C15Link.to_vm B) (snd r) n))
+          [s "a"; s "b"; s "c"; s "d"; s "e"; s "nope"]
+      = map (fun n => assoc n (ob_globals o)) [s "a"; s "b"; s "c"; s "d"; s "e"; s "nope"]
+  | _, _ => False
+  end.
+Proof. vm_compute. repeat split; reflexivity. Qed.
+
+(* ... and a run that succeeds, with i64 wrap-around, nil as an operand and a reassignment *)
+Definition f1_example_ok : module :=
+  prog [("main", fn [] [CSetGlobalVar (s "big") (CBin BAdd (CScalarInt 9223372036854775807) (CScalarInt 1));
+                        CSetGlobalVar (s "n") (CBin BAdd CScalarNil CScalarNil);
+                        CSetGlobalVar (s "m") (CBin BMul (CScalarInt 7) (CReadVar (s "n")));
+                        CSetGlobalVar (s "big") (CBin BXor (CReadVar (s "big")) (CBin BEquals (CReadVar (s "n")) CScalarNil))])].
+Example C01_compile_correct_f1_instance_ok :
+  match Compiler.compile f1_example_ok CompilerProofs.default_options, eval_program 200 f1_example_ok [] with
+  | Compiler.COk B, PObs o =>
+      C01SimDefs.in_f1 f1_example_ok = true /\
+      C01SimDefs.handles_inj (C01SimDefs.main_names (C01SimDefs.main_cards f1_example_ok)) = true /\
+      C01SimDefs.depth_ok (C01SimDefs.main_cards f1_example_ok) = true /\
+      (N.of_nat (List.length (Compiler.p_ids B)) <? Bits.two32)%N = true /\
+      Nat.leb (C01SimDefs.needed_f1 f1_example_ok) 40 = true /\
+      (ob_kind o, ob_globals o) = (KOk, [(s "big", TrInt 0); (s "n", TrNil); (s "m", TrInt 0)]) /\
+      let r := Vm.run no_floats Vm.Release 40 (C15Link.to_vm B) Vm.fresh_state in
+      C01SimDefs.vm_kind (fst r) = Some (ob_kind o) /\
+      map (fun n => option_map C01SimDefs.vm_tree (Vm.read_var_by_name (C15Link.to_vm B) (snd r) n))
+          [s "big"; s "n"; s "m"; s "other"]
+      = map (fun n => assoc n (ob_globals o)) [s "big"; s "n"; s "m"; s "other"]
+  | _, _ => False
+  end.
+Proof. vm_compute. repeat split; reflexivity. Qed.
